@@ -194,7 +194,146 @@ func init() {
 						c.Case(0, true, out)
 					}
 				}})
+			// message-level observers after fills that ADD or RENAME names (ellipsis expansion, a list
+			// variable filled with an item that has variables of its own), through DataMessage.FillVariables
+			ms := NewTreeScope(atoms, 3, 3, 3)
+			sp = append(sp, h.Space{Name: "messages-after-renaming-fills", Count: ms.Count() * 3,
+				Describe: func(i uint64) interface{} {
+					n := ms.Nth(i / 3)
+					nameTemplate(n)
+					return fmt.Sprintf("message fill kind %d on %s", i%3, ref.Print(n))
+				},
+				Run: func(c *h.Ctx, i uint64) {
+					n := ms.Nth(i / 3)
+					if !nameTemplate(n) || n.Complete() {
+						c.Case(0, false, "no-variables")
+						return
+					}
+					msg := ast.NewDataMessage("m", 1, 1, 0, "H->E", Build(n)).SetSessionIDAndSystemBytes(9, []byte{1, 2, 3, 4})
+					_ = msg.Variables() // a first observation, as a caller would make
+					_ = msg.ToBytes()
+					fill := map[string]interface{}{}
+					var want *ref.Node
+					var slots []slot
+					slotsOf(n, &slots)
+					switch i % 3 {
+					case 0: // every ellipsis filled with 1: repeated variables are renamed
+						ells := ellipsisNames(n)
+						if len(ells) == 0 {
+							c.Case(0, false, "no-ellipsis")
+							return
+						}
+						counts := map[string]int{}
+						for _, e := range ells {
+							counts[e], fill[e] = 1, 1
+						}
+						want = refEllipsisFill(n, counts)
+					case 1: // first list variable filled with an item that brings two variables
+						for _, sl := range slots {
+							if sl.kind == ref.VAR {
+								fill[sl.name] = ast.NewListNode(ast.NewUintNode(1, "p", 3), "q")
+								want = substitute(n, map[string]fillValue{sl.name: {node: ref.List(&ref.Node{Kind: ref.U1, Elems: []ref.Elem{{Var: "p"}, {U: 3}}}, ref.Var("q"))}})
+								break
+							}
+						}
+						if want == nil {
+							c.Case(0, false, "no-list-variable")
+							return
+						}
+					default: // every variable filled with a plain value
+						asg := map[string]fillValue{}
+						for _, sl := range slots {
+							if sl.kind != ref.ELLIPSIS {
+								asg[sl.name] = valueOptions(sl)[0]
+								fill[sl.name] = asg[sl.name].v
+							}
+						}
+						want = substitute(n, asg)
+					}
+					var m2 *ast.DataMessage
+					if p := catch(func() { m2 = msg.FillVariables(fill) }); p != nil {
+						c.Fail("message-fill-refused", ref.Print(n)+" "+showMap(fill), fmt.Sprint(p))
+						c.Case(0, true, "bad")
+						return
+					}
+					out := agree(c, "message-fill", msgItem(m2), want, reps)
+					mv, mb := m2.Variables(), m2.ToBytes()
+					names, _ := printedFacts(body(m2.String()))
+					okNames := len(names) == len(mv)
+					for k := 0; okNames && k < len(names); k++ {
+						okNames = names[k] == mv[k] || (names[k] == "..." && strings.HasPrefix(mv[k], "..."))
+					}
+					if !okNames || (len(mb) > 0) != (len(mv) == 0) || !eqStringsEll(mv, want.Variables()) {
+						c.Fail("message-observers-disagree", ref.Print(n)+" filled with "+showMap(fill), fmt.Sprintf("Variables()=%v, names in String() %v, len(ToBytes())=%d", mv, names, len(mb)))
+						out = "bad"
+					} else if len(mv) == 0 {
+						rm := &ref.Msg{Name: "m", Stream: 1, Function: 1, W: 0, Dir: "H->E", Session: 9, System: [4]byte{1, 2, 3, 4}, Item: want}
+						if !sameBytes(mb, ref.EncodeMsg(rm)) {
+							c.Fail("message-bytes-after-fill", ref.Print(n), fmt.Sprintf("%x", mb))
+							out = "bad"
+						}
+					}
+					c.Case(0, true, out)
+				}})
+			// the same name twice anywhere in a tree must be refused by the factories (every pair of variable positions)
+			ds := NewTreeScope(atoms, 3, 3, 3)
+			sp = append(sp, h.Space{Name: "same-name-at-every-pair-of-positions", Count: ds.Count(),
+				Describe: func(i uint64) interface{} { n := ds.Nth(i); nameTemplate(n); return "every pair of variables renamed to one name in " + ref.Print(n) },
+				Run: func(c *h.Ctx, i uint64) {
+					n := ds.Nth(i)
+					if !nameTemplate(n) {
+						c.Case(0, false, "invalid-template")
+						return
+					}
+					var slots []slot
+					slotsOf(n, &slots)
+					for a := 0; a < len(slots); a++ {
+						for b := a + 1; b < len(slots); b++ {
+							if slots[a].kind == ref.ELLIPSIS || slots[b].kind == ref.ELLIPSIS {
+								continue
+							}
+							for dir := 0; dir < 2; dir++ {
+								from, to := slots[b].name, slots[a].name
+								if dir == 1 {
+									from, to = slots[a].name, slots[b].name
+								}
+								m := n.Clone()
+								renameVar(m, from, to)
+								it, pan := tryItem(func() ast.ItemNode { return Build(m) })
+								c.Ops(1)
+								if pan == "" {
+									c.Fail("duplicate-variable-name-accepted", ref.Print(m), fmt.Sprintf("constructed; Variables()=%v", it.Variables()))
+								}
+								c.Case(0, true, "duplicate-refused")
+							}
+						}
+					}
+				}})
 			return sp
 		},
 	})
+}
+
+// renameVar renames one variable of a template in place.
+func renameVar(n *ref.Node, from, to string) {
+	switch n.Kind {
+	case ref.L:
+		for _, c := range n.Children {
+			renameVar(c, from, to)
+		}
+	case ref.VAR:
+		if n.Name == from {
+			n.Name = to
+		}
+	case ref.A:
+		if n.AVar != nil && n.AVar.Name == from {
+			n.AVar.Name = to
+		}
+	default:
+		for i := range n.Elems {
+			if n.Elems[i].Var == from {
+				n.Elems[i].Var = to
+			}
+		}
+	}
 }
